@@ -172,27 +172,27 @@ func snapshot(root string) map[string]SnapEntry {
 
 // ChildReq is what the parent asks the chrooted child to do.
 type ChildReq struct {
-	Op      string    `json:"op"` // unpack | pack
-	Root    string    `json:"root"`
-	Uid     int       `json:"uid"`
-	Dst     string    `json:"dst,omitempty"`   // inside the chroot
-	Slug    []byte    `json:"slug,omitempty"`  // tar.gz bytes (unpack)
-	FailAt  int       `json:"fail_at"`         // reader/writer fails at this byte offset (-1 = never)
-	Trunc   bool      `json:"trunc,omitempty"` // reader: EOF instead of error at FailAt
-	Src     string    `json:"src,omitempty"`   // pack: source spelling
-	Cwd     string    `json:"cwd,omitempty"`
-	Deref   bool      `json:"deref,omitempty"`
-	Ignore  bool      `json:"ignore,omitempty"`
-	Allow   []string  `json:"allow,omitempty"`
-	Legacy  bool      `json:"legacy,omitempty"` // use the package-level Pack()
-	History []string  `json:"history,omitempty"`
-	Flags   []bool    `json:"flags,omitempty"`    // state of the shared default-rule flags before the call
-	PrePack string    `json:"pre_pack,omitempty"` // pack this directory first with the same Packer value
-	Reuse   bool      `json:"reuse,omitempty"`    // unpack: the Packer value has already unpacked another slug elsewhere
-	WarmDir string    `json:"warm_dir,omitempty"` // ... into this directory (outside the arena; created and removed by the child)
-	WriteLimit int    `json:"write_limit,omitempty"` // unpack: RLIMIT_FSIZE for the child
-	Interleave string `json:"interleave,omitempty"`  // pack: rule-file text parsed at the first write of the output
-	Build   *BuildReq `json:"build,omitempty"`    // op "build": run the bundle builder (stream prepare)
+	Op         string    `json:"op"` // unpack | pack
+	Root       string    `json:"root"`
+	Uid        int       `json:"uid"`
+	Dst        string    `json:"dst,omitempty"`   // inside the chroot
+	Slug       []byte    `json:"slug,omitempty"`  // tar.gz bytes (unpack)
+	FailAt     int       `json:"fail_at"`         // reader/writer fails at this byte offset (-1 = never)
+	Trunc      bool      `json:"trunc,omitempty"` // reader: EOF instead of error at FailAt
+	Src        string    `json:"src,omitempty"`   // pack: source spelling
+	Cwd        string    `json:"cwd,omitempty"`
+	Deref      bool      `json:"deref,omitempty"`
+	Ignore     bool      `json:"ignore,omitempty"`
+	Allow      []string  `json:"allow,omitempty"`
+	Legacy     bool      `json:"legacy,omitempty"` // use the package-level Pack()
+	History    []string  `json:"history,omitempty"`
+	Flags      []bool    `json:"flags,omitempty"`       // state of the shared default-rule flags before the call
+	PrePack    string    `json:"pre_pack,omitempty"`    // pack this directory first with the same Packer value
+	Reuse      bool      `json:"reuse,omitempty"`       // unpack: the Packer value has already unpacked another slug elsewhere
+	WarmDir    string    `json:"warm_dir,omitempty"`    // ... into this directory (outside the arena; created and removed by the child)
+	WriteLimit int       `json:"write_limit,omitempty"` // unpack: RLIMIT_FSIZE for the child
+	Interleave string    `json:"interleave,omitempty"`  // pack: rule-file text parsed at the first write of the output
+	Build      *BuildReq `json:"build,omitempty"`       // op "build": run the bundle builder (stream prepare)
 }
 
 type ChildResp struct {
